@@ -25,7 +25,7 @@ FALSY_HASH = [None, 0, "", ()]                 # and hashable
 
 NUMERIC_OPS = {"sum", "sum_key", "average", "average_key", "min", "max", "min_cmp", "max_cmp", "min_by", "max_by",
                "reduce", "reduce_seed", "scan", "scan_seed"}
-COMPARE_OPS = {"distinct", "distinct_until_changed", "contains", "contains_cmp", "sequence_equal_iter"}
+COMPARE_OPS = {"distinct_near", "distinct_until_changed_near", "distinct", "distinct_until_changed", "contains", "contains_cmp", "sequence_equal_iter"}
 HASH_OPS = {"to_set", "to_dict"}
 NOTIME_OPS = {"slice", "getitem_int"}   # instants are not part of the slicing statement
 
@@ -127,6 +127,8 @@ def cmp_fn(code: int):
             return False
         if code == 3:
             return True
+        if code == 5:
+            return abs(a - b) <= 1
         raise FnErr("cmp")
     return c
 
@@ -198,6 +200,9 @@ def build(op: str, par: Dict[str, Any], cod: Codec) -> Tuple[str, tuple, dict]:
         return op, (par["n"],), {}
     if op == "element_at_or_default":
         return op, (par["n"], V(par["d"])), {}
+    if op in ("distinct_near", "distinct_until_changed_near"):
+        c = cmp_fn(par["cmp"])      # no key mapper: the comparer sees the elements themselves (decoded back to tokens)
+        return op[:-5], (None, lambda a, b: c(cod.tok(a), cod.tok(b))), {}
     if op in ("distinct", "distinct_until_changed"):
         tab = par["f"]
         if par["cmp"] == 0:
